@@ -33,13 +33,13 @@ TRUSTED = ["harness/c05.py, harness/fieldio.py + driver JSON glue",
            "np.stack / np.rot90 / broadcasting / dict update semantics modelled by contract; cos/sin(k*pi/2) modelled by their exact values"]
 ASSUMPTIONS = ["exact-regime inputs (dyadic corners, cells 2^-k, small-integer polynomial coefficients): every binary64 operation on the code path of the four operators is exact, so equality is demanded",
                "component labels are not names of Field attributes (the hasattr test of the vdims setter is not modelled)",
-               "operands of + - << inside the operators live on the same mesh object (mesh equality is modelled as structural equality); meshes carry no subregions"]
-UNPROVED = ["ops_commute_rot90 is proved only in the *_rot90_partial form (grad, div, curl, scalar laplace): one quarter turn k=1 about the region centre, fully valid "
-            "fields, both axes of the plane open or both periodic, ndim<=4; other k, masks and the vector Laplacian are checked by the oracle on the real code only",
+               "operands of + - << inside the operators live on the same mesh object (mesh equality is modelled as structural equality); meshes carry no subregions",
+               "findings D55 (vector Laplacian lost labels and mapping) and D56 (Mesh.rotate90 kept bc) are fixed in /repo; their witnesses are corpus cases that must pass"]
+UNPROVED = ["ops_commute_rot90 is proved in the *_rot90_partial form (grad, div, curl, scalar and vector laplace, each with a theorem that the four fields exist): "
+            "one quarter turn k=1 about the region centre, fully valid fields, ndim<=4 for grad, any combination of open and periodic axes in the plane "
+            "(single-character axis names or axes periodic alike), any mapping; other k and fields with invalid cells are checked by the oracle on the real code only",
             "div_perm/curl_perm (DESIGN.md): invariance under permuting the storage order together with the mapping is oracle-only; div_eq/curl_eq state the "
-            "pairing per stored component through the mapping and div_relabel proves independence of label spelling",
-            "the full-strength rotation claim is FALSE of the code in two input classes: candidate finding D55 (vector Laplacian under a non-positional mapping; "
-            "behaviour stated by theorem laplace_vector_meta) and candidate finding D56 (Mesh.rotate90 keeps bc in place; hypothesis periodic f a = periodic f b of the theorems)"]
+            "pairing per stored component through the mapping and div_relabel proves independence of label spelling"]
 BUDGET = {"quick": 120, "thorough": 1200}
 
 DIMPOOL = ["x", "y", "z", "a", "b", "c", "u", "v", "w", "t"]
